@@ -17,6 +17,7 @@ def run(c):
     c.guard("clone_rejected", st.get("clone_rejected", 0))
     c.guard("builds", st.get("builds", 0))
     c.guard("build_after_history", st.get("build_after_history", 0))
+    c.guard("resets_with_other_weights", st.get("resets_with_other_weights", 0))
     c.guard("builds_at_cap", st.get("builds_at_cap", 0))
     c.guard("accepted", st.get("accepted", 0))
     return lc.finish(c, res, "every Process verdict (accepted / wrong frame) and every Build result compared with Allowed / BuildFrame of the specification", extra=dict(exhaustive_part=ex["total"], model_samples=ex["samples"]))
